@@ -379,6 +379,35 @@ pub fn collation_family() -> Vec<Content> {
 /// DENSE sweeps (every value, not a ladder): a string / c-string / label of every encoded
 /// length 0..=max_len (ASCII, and two-byte characters with an optional ASCII shift), and raw
 /// data of every length 0..=max_data with annotations on the first and last cell and the end.
+/// EVERY string length from 301 up to `max` bytes (one content per length; two-byte characters
+/// at even offsets for even lengths, behind a one-byte head for odd ones; the roles and byte
+/// orders rotate): block sizes of a reader or writer (64, 512, 1536, 4096 bytes) are all crossed
+/// at both parities.
+pub fn long_string_family(max: usize) -> Vec<Content> {
+    let mut v = Vec::new();
+    for k in 301..=max {
+        let s: String = if k % 2 == 0 { "漢字".chars().cycle().take(k / 2).collect::<String>() } else { "z".to_string() + &"ソ能".chars().cycle().take((k - 1) / 2).collect::<String>() };
+        let mut c = Content::new(if k % 4 < 2 { End::Little } else { End::Big });
+        c.data = vec![0; 8];
+        match (k / 2) % 3 {
+            0 => {
+                c.strings.insert(0, s.clone());
+                c.labels.insert(4, vec!["k".into()]);
+            }
+            1 => {
+                c.cstrings.insert(0, s.clone());
+                c.strings.insert(4, "short".into());
+            }
+            _ => {
+                c.labels.insert(0, vec![s.clone()]);
+                c.strings.insert(4, "short".into());
+            }
+        }
+        v.push(c);
+    }
+    v
+}
+
 pub fn dense_family(max_len: usize, max_data: usize) -> Vec<Content> {
     let mut v = Vec::new();
     for e in [End::Little, End::Big] {
